@@ -209,8 +209,12 @@ def run_check(prop, tier, seed, replay=None, nproc=None):
         cases = mod.cases(tier, seed)
     for i, c in enumerate(cases):
         c.setdefault('_i', i)
-    nshards = max(1, min(nproc, len(cases)))
-    # cost-aware round robin: cases may carry '_cost'
+    # more shards than workers, longest first, started as workers become free: static cost estimates are rough and a
+    # single slow shard would otherwise decide the wall time
+    factor = int(os.environ.get('VERIF_SHARD_FACTOR', 3 if tier == 'quick' else 8))
+    nshards = max(1, min(nproc * factor, max(nproc, len(cases) // 4), len(cases)))
+    if replay:
+        nshards = 1
     order = sorted(range(len(cases)), key=lambda i: -cases[i].get('_cost', 1))
     shards = [[] for _ in range(nshards)]
     loads = [0.0] * nshards
@@ -228,26 +232,23 @@ def run_check(prop, tier, seed, replay=None, nproc=None):
     env.setdefault('MKL_NUM_THREADS', '1')
     env['NUMBA_DISABLE_JIT'] = env.get('NUMBA_DISABLE_JIT', '1')
     env['PYSDC_VERIF'] = '1'
-    watchdog = float(os.environ.get('VERIF_WATCHDOG', getattr(mod, 'WATCHDOG', {}).get(tier, 3000)))
-    procs = []
-    for k, shard in enumerate(shards):
+    watchdog = float(os.environ.get('VERIF_WATCHDOG', getattr(mod, 'WATCHDOG', {}).get(tier, 3000 if tier == 'quick' else 7200)))
+    deadline = t0 + watchdog
+    pending = sorted(range(nshards), key=lambda k: -loads[k])
+    running = []
+    results = []
+    global_incon = []
+
+    def start(k):
         sp = os.path.join(tmpdir, f'shard{k}.json')
         op = os.path.join(tmpdir, f'out{k}.json')
         with open(sp, 'w') as fh:
-            json.dump(shard, fh)
+            json.dump(shards[k], fh)
         lp = open(os.path.join(tmpdir, f'log{k}.txt'), 'w')
         p = subprocess.Popen([PY, '-m', 'vf.worker', prop, sp, op], env=env, cwd=tmpdir, stdout=lp, stderr=subprocess.STDOUT)
-        procs.append((p, shard, op, lp))
-    results = []
-    global_incon = []
-    deadline = t0 + watchdog
-    for p, shard, op, lp in procs:
-        try:
-            p.wait(timeout=max(1.0, deadline - time.time()))
-        except subprocess.TimeoutExpired:
-            p.kill()
-            p.wait()
-            global_incon.append(f'worker watchdog fired after {watchdog:.0f}s (wall clock; inconclusive, not a violation)')
+        return (p, shards[k], op, lp)
+
+    def collect(p, shard, op, lp):
         lp.close()
         got = []
         if os.path.exists(op):
@@ -261,8 +262,28 @@ def run_check(prop, tier, seed, replay=None, nproc=None):
             tail = open(lp.name).read()[-1500:]
             if p.returncode not in (0, None) and p.returncode != -9:
                 global_incon.append(f'worker exited with {p.returncode} after {len(got)}/{len(shard)} cases: {tail}')
-            elif len(got) < len(shard) and not global_incon:
+            elif len(got) < len(shard) and not any('worker produced' in g for g in global_incon):
                 global_incon.append(f'worker produced {len(got)}/{len(shard)} results: {tail}')
+
+    timed_out = False
+    while pending or running:
+        while pending and len(running) < nproc and not timed_out:
+            running.append(start(pending.pop(0)))
+        still = []
+        for item in running:
+            if item[0].poll() is None:
+                still.append(item)
+            else:
+                collect(*item)
+        running = still
+        if time.time() > deadline and not timed_out:
+            timed_out = True
+            for item in running:
+                item[0].kill()
+            global_incon.append(f'worker watchdog fired after {watchdog:.0f}s with {len(pending)} shard(s) not started (wall clock; inconclusive, not a violation)')
+            pending = []
+        if running:
+            time.sleep(0.05)
     import shutil
 
     shutil.rmtree(tmpdir, ignore_errors=True)
